@@ -86,6 +86,20 @@ func ValidNumber(r *rand.Rand) string {
 		return Numbers[r.IntN(validNumbers)]
 	case k < 7:
 		return strconv.FormatInt(r.Int64N(2000)-1000, 10)
+	case k == 7:
+		// 16 or 17 significant digits that read as an integer above 2^53 (9007…–9999…), the point anywhere:
+		// exact only if the whole digit string is converted at once, not as float64(digits)/10^k
+		var sb strings.Builder
+		if r.IntN(4) == 0 {
+			sb.WriteByte('-')
+		}
+		digits := strconv.Itoa(9007 + r.IntN(993))
+		for n := 12 + r.IntN(2); n > 0; n-- {
+			digits += string(byte('0' + r.IntN(10)))
+		}
+		p := 1 + r.IntN(len(digits)-1)
+		sb.WriteString(digits[:p] + "." + digits[p:])
+		return sb.String()
 	}
 	var sb strings.Builder
 	if r.IntN(3) == 0 {
@@ -107,6 +121,7 @@ func ValidNumber(r *rand.Rand) string {
 	}
 	if r.IntN(3) == 0 {
 		sb.WriteString([...]string{"e", "E", "e+", "e-", "E-", "E+"}[r.IntN(6)])
+		sb.WriteString([...]string{"", "", "", "0", "00", "000"}[r.IntN(6)]) // leading zeros are part of the grammar: e05, E+007
 		sb.WriteString(strconv.Itoa([...]int{0, 1, 5, 22, 23, 300, 308, 309, 323, 324, 400}[r.IntN(11)] + r.IntN(3)))
 	}
 	return sb.String()
